@@ -378,4 +378,296 @@ theorem seams_gap (L Gt Xn : List Tok) (f T : Nat) (hc : toksHighClosed L) (hf :
         simp [Tok.isUnit] at this)
     rwa [List.length_append, hPl] at this
 
+/-! ### `must_move_inline` -/
+
+/-- the loop `while depth > 1`: the answer is the position behind one of the ancestors of `to`, and that position is
+    not the end of the node it lies in (unless that node is the document) -/
+theorem moveInlineAfter_level (rt : RPos) : ∀ k, 1 ≤ k → ∃ j, j < k ∧
+    moveInlineAfter rt k (rt.end_ k + 1) = rt.end_ (j + 1) + 1 ∧ (j = 0 ∨ rt.end_ (j + 1) + 1 ≠ rt.end_ j)
+  | 0, h => by omega
+  | 1, _ => ⟨0, by omega, rfl, .inl rfl⟩
+  | d + 2, _ => by
+    simp only [moveInlineAfter]
+    split
+    · rename_i hne
+      exact ⟨d + 1, by omega, rfl, .inr (by simpa using hne)⟩
+    · rename_i heq
+      have heq' : rt.end_ (d + 2) + 1 = rt.end_ (d + 1) := by simpa using heq
+      obtain ⟨j, hj, h1, h2⟩ := moveInlineAfter_level rt (d + 1) (by omega)
+      rw [heq']
+      exact ⟨j, by omega, h1, h2⟩
+
+theorem mustMoveInline_spec (S : Schema) (doc : Node) (rt : RPos) (fr : List FItem) (p : Nat)
+    (h : mustMoveInline S doc rt fr = .ok (some p)) :
+    ∃ top fit' after, fr[fr.length - 1]? = some top ∧ S.isTextblockO top.ty = true ∧
+      contentAfterFits S rt rt.depth top.ty top.st false = .ok (some fit') ∧
+      rt.after rt.depth = some after ∧ p = moveInlineAfter rt rt.depth after := by
+  unfold mustMoveInline at h
+  split at h
+  · simp [pure, Except.pure] at h
+  · obtain ⟨top, htop, h⟩ := FM.bind_ok h
+    split at h
+    · simp [pure, Except.pure] at h
+    · rename_i htb
+      obtain ⟨r, hr, h⟩ := FM.bind_ok h
+      cases r with
+      | none => simp [pure, Except.pure] at h
+      | some fit' =>
+        simp only at h
+        obtain ⟨blocked, _, h⟩ := FM.bind_ok h
+        cases blocked with
+        | true => simp [pure, Except.pure] at h
+        | false =>
+          simp only [Bool.false_eq_true, if_false] at h
+          obtain ⟨after, ha, h⟩ := FM.bind_ok h
+          have := pure_ok h
+          simp only [Option.some.injEq] at this
+          refine ⟨top, fit', after, ?_, by simpa using htb, hr, liftRaise_ok ha, this.symm⟩
+          unfold getItem at htop
+          split at htop
+          · rename_i it hit
+            have := pure_ok htop
+            subst this
+            exact hit
+          · simp [throw, throwThe, MonadExceptOf.throw] at htop
+
+/-- at the position `must_move_inline` answers, `find_close_level` never drops the node around it -/
+theorem no_drop_after_move {doc : Node} {p : Nat} {tg : RPos} (R : Resolved doc p tg)
+    (h : tg.depth = 0 ∨ p ≠ tg.end_ tg.depth) (i : Nat) : dropInnerB tg i = false := by
+  cases hd : dropInnerB tg i with
+  | false => rfl
+  | true =>
+    exfalso
+    simp only [dropInnerB, Bool.and_eq_true, decide_eq_true_eq, beq_iff_eq] at hd
+    obtain ⟨hi, he⟩ := hd
+    have hn := (R.nestW (i + 1) tg.depth (by omega) (Nat.le_refl _)).2
+    have hp := (R.pos_in tg.depth (Nat.le_refl _)).2
+    rw [R.pos_eq] at he
+    rcases h with h | h
+    · omega
+    · omega
+
+/-! ### the replace-around answer applies -/
+
+/-- **`Fitter.fit` on a deletion with `must_move_inline() = p`**: the step
+    `ReplaceAroundStep(from, p, to, to.end(), <placed, normalised>, 0)` applies -/
+theorem close_around_applies (S : Schema) (hdet : DetS S) (hleaf : LeafOk S) (hfl : FillersOK S) (hcl : Closable S)
+    (hts : TextStableP S) (hjc : joinCompatB S = true) (hro : reopenOKB S = true) (hiu : inlineUniformB S = true)
+    {ty0 : TypeId} {a0 : Attrs} {m0 : Marks} {K : List Node} {f t p : Nat} {rf rt tg : RPos}
+    (hf : (Node.elem ty0 a0 m0 K).resolve f = some rf) (ht : (Node.elem ty0 a0 m0 K).resolve t = some rt)
+    (htg : (Node.elem ty0 a0 m0 K).resolve p = some tg)
+    (hv : S.checkNode (.elem ty0 a0 m0 K) = true) (hn : fnorm K = true)
+    (hattrs : S.nodeAttrsOK (.elem ty0 a0 m0 K) = true) (hhc : highClosedKids K = true)
+    (hpf : rf.pairOk = true) (hpt : rt.pairOk = true) (hft : f ≤ t)
+    (st0 : FitState) (h0 : fitInit S rf Slice.empty = .ok st0)
+    (hmi : mustMoveInline S (.elem ty0 a0 m0 K) rt st0.frontier = .ok (some p))
+    (mv : RPos) (placed : List Node)
+    (hcf : closeFit S (.elem ty0 a0 m0 K) tg st0.frontier st0.placed = .ok (some (mv, placed))) :
+    ∃ doc', S.apply (.replaceAround f p t (rt.end_ rt.depth)
+      ⟨(normalizeOpen (rf.depth + 1) placed rf.depth mv.depth).1,
+       (normalizeOpen (rf.depth + 1) placed rf.depth mv.depth).2.1,
+       (normalizeOpen (rf.depth + 1) placed rf.depth mv.depth).2.2⟩ 0 false) (.elem ty0 a0 m0 K) = .ok doc' := by
+  have Rf := resolve_resolved hf
+  have Rt := resolve_resolved ht
+  have Rg := resolve_resolved htg
+  obtain ⟨_, _, hlen0, hfr0⟩ := fitInit_spec S hf Slice.empty st0 h0
+  have hF : FrontierOf S rf st0.frontier := ⟨hlen0, hfr0⟩
+  -- what `must_move_inline` tested
+  obtain ⟨top, fit', after, htop, htb, hfits, hafter, hp⟩ := mustMoveInline_spec S _ rt _ p hmi
+  have hE : 1 ≤ rt.depth := by
+    rcases Nat.eq_zero_or_pos rt.depth with h0' | h0'
+    · rw [h0'] at hafter; simp [RPos.after] at hafter
+    · exact h0'
+  rw [Rt.after_eq rt.depth hE (Nat.le_refl _)] at hafter
+  simp only [Option.some.injEq] at hafter
+  subst hafter
+  obtain ⟨j, hj, hpj, hjne⟩ := moveInlineAfter_level rt rt.depth hE
+  rw [hpj] at hp
+  -- the position the content is moved in front of
+  have haj : rt.after (j + 1) = some p := by rw [Rt.after_eq (j + 1) (by omega) (by omega), hp]
+  obtain ⟨hgd, _, _, _, _, hgto, hgend⟩ := closeMove_drop S ht hn j hj haj htg
+  have hgpair : tg.pairOk = true := by simp [RPos.pairOk, hgto]
+  have htp : t ≤ p := by
+    have := (Rt.pos_in (j + 1) (by omega)).2
+    omega
+  have hnodrop : ∀ i, dropInnerB tg i = false := by
+    refine no_drop_after_move Rg ?_
+    rcases hjne with h | h
+    · exact .inl (by rw [hgd, h])
+    · refine .inr ?_
+      rw [hgd, hgend j (Nat.le_refl _), hp]
+      exact h
+  -- `close` continues from that position itself
+  obtain ⟨lv, hlv, hmvlv⟩ := closeFit_move S _ tg _ _ mv placed hcf
+  obtain ⟨_, _, _, _, _, hkeep⟩ := closeFacts_of S htg hn st0.frontier hF lv hlv
+  have hmv : mv = tg := by rw [hmvlv]; exact hkeep (hnodrop _)
+  -- the two flat ends
+  obtain ⟨hKf0, hfpos, hfs, hfle⟩ := doc_plug hf
+  have hKf : K = plug (framesFrom rf 0 rf.depth) rf.parent.kids := hKf0
+  obtain ⟨hKt0, _, _, _⟩ := doc_plug ht
+  have hKt : K = plug (framesFrom rt 0 rt.depth) rt.parent.kids := hKt0
+  obtain ⟨hFl, _, hidxF⟩ := resolved_flatAt hf hpf
+  obtain ⟨hTl, _, hidxT⟩ := resolved_flatAt ht hpt
+  obtain ⟨hvF, hkF, _⟩ := level_check S hf hv rf.depth (Nat.le_refl _)
+  obtain ⟨_, hkT, _⟩ := level_check S ht hv rt.depth (Nat.le_refl _)
+  have hnF : fnorm rf.parent.kids = true := (plug_framesFN _ _ (hKf ▸ hn)).2
+  have hnT : fnorm rt.parent.kids = true := (plug_framesFN _ _ (hKt ▸ hn)).2
+  obtain ⟨hnX, htkX, hkX, hsX⟩ := flat_left_facts S hFl hnF hkF
+  obtain ⟨hspR, hkG, hsG⟩ := flat_right_facts S hTl hnT hkT
+  have hnG := splitRight_flat_fnorm _ _ _ hnT hspR
+  have hAl : (rf.parent.kids.take (rf.index rf.depth)).length = rf.index rf.depth := by
+    rw [List.length_take]; omega
+  have hBl : (rt.parent.kids.take (rt.index rt.depth)).length = rt.index rt.depth := by
+    rw [List.length_take]; omega
+  have hsX' : sigOf S (rf.parent.kids.take (rf.index rf.depth) ++ headCut (rf.parent.kids.drop (rf.index rf.depth)) rf.textOffset)
+      = sigOf S (rf.parent.kids.take (rf.indexAfter rf.depth)) := by
+    rw [hsX, hAl]
+    unfold RPos.indexAfter
+    simp
+  rw [hBl] at hsG
+  -- the textblock `from` is in: its automaton is uniform, the moved content is accepted there
+  obtain ⟨qD, hqD, hcmD⟩ := hfr0 rf.depth (Nat.le_refl _)
+  rw [hlen0, Nat.add_sub_cancel, hqD] at htop
+  simp only [Option.some.injEq] at htop
+  subst htop
+  obtain ⟨_, _, q', hq', hfillG, himG⟩ := contentAfterFits_spec S rt rt.depth _ _ false fit' hfits
+  simp only [Bool.false_eq_true, if_false, Option.some.injEq] at hq' hfillG himG
+  subst hq'
+  have hU : InlineUniform S (S.tyOf rf.parent) := by
+    refine inlineUniform_of_B S hiu _ ?_
+    simp only [Schema.isTextblockO, Bool.and_eq_true] at htb
+    exact htb.2
+  have hbLok := botLOK_gap S hdet hleaf hts hf hv hU _ _ hsX'
+    (fun q hq => by
+      have hq2 : q = qD := by
+        have : S.contentMatchAt (S.tyOf rf.parent) rf.parent.kids (rf.indexAfter rf.depth) = some qD := hcmD
+        rw [hq] at this
+        exact Option.some.inj this
+      subst hq2
+      exact ⟨fit', by rw [sigOf_types S hsG]; exact hfillG⟩)
+    (sigOf_marksOK S _ hsG (invalidMarks_false S _ _ himG))
+  -- the gap as a slice
+  have hslice := slice_to_end ht hn hpt
+  have htEnd : rt.end_ rt.depth ≤ fsize K := (Rt.end_le_size rt.depth (Nat.le_refl _)).1
+  have htle : t ≤ rt.end_ rt.depth := (Rt.pos_in rt.depth (Nat.le_refl _)).2
+  have hGtoks : ftoks (tailCut (rt.parent.kids.drop (rt.index rt.depth)) rt.textOffset)
+      = ((ftoks K).drop t).take (rt.end_ rt.depth - t) := by
+    have := sliceKids_toks K t (rt.end_ rt.depth) _ htle htEnd hslice
+    simp only [Slice.toks, List.drop_zero, Nat.sub_zero] at this
+    rw [← this, List.take_of_length_le (by rw [ftoks_length]; exact Nat.le_refl _)]
+  -- alignment at the end of the gap
+  have hKn := ftoks_highClosed K hhc
+  have haEnd : tokAligned (ftoks K) (rt.end_ rt.depth) = true := by
+    obtain ⟨tyP, aP, mP, ctx, _, hl⟩ := Resolved.lvl ht hn rt.depth (Nat.le_refl _)
+    rw [← alignedAt_toks K _ hn, Resolved.end_eq, (hl.depth _ (Nat.le_refl _)).2]
+    exact alignedAt_fsize _
+  have haf : tokAligned (ftoks K) f = true := by
+    rw [← alignedAt_toks K _ hn, hfpos, hKf, plug_aligned _ _ _ (plug_norm _ _ (hKf ▸ hn)).1 hfle]
+    exact hFl.aligned
+  have hlast : ∀ c m, (ftoks (tailCut (rt.parent.kids.drop (rt.index rt.depth)) rt.textOffset)).getLast?
+      = some (Tok.unit c m) → isHigh c = false := by
+    intro c m hl
+    by_cases hem : ftoks (tailCut (rt.parent.kids.drop (rt.index rt.depth)) rt.textOffset) = []
+    · rw [hem] at hl; simp at hl
+    · refine prev_not_high (ftoks K) hKn (rt.end_ rt.depth) (by rw [ftoks_length]; exact htEnd) haEnd c m ?_
+      have e : (ftoks K).take (rt.end_ rt.depth)
+          = (ftoks K).take t ++ ((ftoks K).drop t).take (rt.end_ rt.depth - t) := by
+        conv => lhs; rw [show rt.end_ rt.depth = t + (rt.end_ rt.depth - t) by omega]
+        rw [List.take_add]
+      rw [e, ← hGtoks, getLast?_append_ne _ _ hem]
+      exact hl
+  -- the replace with the gap content in place
+  obtain ⟨ffsB, fills, tail, b, hlenB, htfF, htft, hnorm, X, hX⟩ := close_core S hdet hleaf hfl hcl hts hjc hro hf htg hv hn
+    hattrs hpf hgpair (by omega) st0 h0 mv placed hcf _ (fappend _ _) hnG
+    (by rw [fappend_toks, htkX]) (fappend_norm _ _ hnX hnG) (fappend_checkKids S _ _ hkX hkG) hbLok
+    (fun Xn T hXn _ _ => seams_gap (ftoks K) _ Xn f T hKn (by rw [ftoks_length]; exact Rf.le) haf hXn hlast)
+  -- the step
+  rw [hnorm]
+  have hpm : mv.pos = p := by rw [hmv]; exact Rg.pos_eq
+  rw [hpm] at hX
+  have hins := insertInto_leftS S (tailCut (rt.parent.kids.drop (rt.index rt.depth)) rt.textOffset) ffsB fills tail b
+    hlenB htfF htft
+  have hsl : (Node.elem ty0 a0 m0 K).slice t (rt.end_ rt.depth)
+      = .ok ⟨tailCut (rt.parent.kids.drop (rt.index rt.depth)) rt.textOffset, 0, 0⟩ := hslice
+  simp only [Schema.apply, Bool.false_eq_true, if_false, hsl, Slice.insertAt, Nat.zero_add, hins,
+    Schema.fromReplace, Schema.replace, hX, Except.map]
+  exact ⟨_, rfl⟩
+
+/-! ### `replace_step` on a deletion: every emitted step applies -/
+
+/-- **every step `replace_step` emits for a deletion applies** -/
+theorem replaceStep_delete_applies (S : Schema) (hdet : DetS S) (hleaf : LeafOk S) (hfl : FillersOK S)
+    (hcl : Closable S) (hts : TextStableP S) (hta : TextAbsorb S) (hjc : joinCompatB S = true)
+    (hro : reopenOKB S = true) (hiu : inlineUniformB S = true) (ty0 : TypeId) (a0 : Attrs) (m0 : Marks)
+    (K : List Node) (f t : Nat)
+    (hv : S.checkNode (.elem ty0 a0 m0 K) = true) (hn : fnorm K = true)
+    (hattrs : S.nodeAttrsOK (.elem ty0 a0 m0 K) = true) (hhc : highClosedKids K = true) (hft : f ≤ t)
+    (rf rt : RPos) (hf : (Node.elem ty0 a0 m0 K).resolve f = some rf)
+    (ht : (Node.elem ty0 a0 m0 K).resolve t = some rt) (hpf : rf.pairOk = true) (hpt : rt.pairOk = true)
+    (st : Step) (h : replaceStep S (.elem ty0 a0 m0 K) f t Slice.empty = .ok (some st)) :
+    ∃ doc', S.apply st (.elem ty0 a0 m0 K) = .ok doc' := by
+  unfold replaceStep at h
+  split at h
+  · simp [pure, Except.pure] at h
+  · simp only [hf, ht] at h
+    split at h
+    · simp [throw, throwThe, MonadExceptOf.throw] at h
+    · rename_i htr
+      have := pure_ok h
+      simp only [Option.some.injEq] at this
+      subst this
+      exact trivial_delete_applies' S hta hts ty0 a0 m0 K f t rf rt hf ht hv hn hft hpf hpt htr
+    · unfold fitterFit at h
+      obtain ⟨st0, h0, h⟩ := FM.bind_ok h
+      obtain ⟨hu, _, hlen0, _⟩ := fitInit_spec S hf Slice.empty st0 h0
+      obtain ⟨st0', h0', _, _, _, _, hsz⟩ := fitInit_ok S hf hv Slice.empty
+      rw [h0] at h0'
+      simp only [Except.ok.injEq] at h0'
+      subst h0'
+      rw [FM.bind_eq (fitLoop_empty S _ st0 hu)] at h
+      obtain ⟨mi, hmi, h⟩ := FM.bind_ok h
+      simp only at h
+      obtain ⟨target, htarget, h⟩ := FM.bind_ok h
+      obtain ⟨c, hc, h⟩ := FM.bind_ok h
+      have hpos : rf.pos = f := (resolve_resolved hf).pos_eq
+      have hpos' : rt.pos = t := (resolve_resolved ht).pos_eq
+      cases c with
+      | none => simp [pure, Except.pure] at h
+      | some c =>
+        simp only at h
+        cases mi with
+        | none =>
+          have htg : target = rt := by
+            simp only [closeTarget] at htarget
+            exact (pure_ok htarget).symm
+          subst htg
+          unfold fitEmit at h
+          simp only at h
+          split at h
+          · have := pure_ok h
+            simp only [Option.some.injEq] at this
+            subst this
+            rw [hpos]
+            exact close_replace_applies S hdet hleaf hfl hcl hts hjc hro hf ht hv hn hattrs hhc hpf hpt hft st0 h0
+              c.1 c.2 hc
+          · simp [pure, Except.pure] at h
+        | some p =>
+          have htg : (Node.elem ty0 a0 m0 K).resolve p = some target := by
+            simp only [closeTarget] at htarget
+            exact liftRaise_ok htarget
+          unfold fitEmit at h
+          simp only at h
+          split at h
+          · simp [throw, throwThe, MonadExceptOf.throw] at h
+          · have := pure_ok h
+            simp only [Option.some.injEq] at this
+            subst this
+            have hps : ((fsize st0.placed : Int) - ((st0.frontier.length - 1 : Nat) : Int) - (rf.depth : Int)).toNat = 0 := by
+              rw [hsz, hlen0]
+              simp only [Nat.add_sub_cancel]
+              omega
+            rw [hpos, hpos', hps]
+            exact close_around_applies S hdet hleaf hfl hcl hts hjc hro hiu hf ht htg hv hn hattrs hhc hpf hpt hft
+              st0 h0 hmi c.1 c.2 hc
+
 end PM
